@@ -1,7 +1,7 @@
 (* C08 — responses are delivered to the caller of the matching request id; ids are non-zero and not shared by
    outstanding calls.  Statements only; every proof is [exact] of a lemma proved elsewhere. *)
 From Coq Require Import List ZArith NArith Bool.
-From TarsV Require Import Gen.Consts Rpc.ReqId Rpc.ReqIdProofs Conc.Pending Conc.PendingProofs Conc.C08Corr.
+From TarsV Require Import Gen.Consts Rpc.ReqId Rpc.ReqIdProofs Conc.Pending Conc.PendingProofs Conc.C08Corr Conc.C08Sys Conc.C08SysProofs.
 Import ListNotations.
 Open Scope Z_scope.
 
@@ -74,6 +74,51 @@ Theorem C08_outstanding_distinct : forall ls s k1 k2 c1 c2, good_run Pending.ini
   c_id c1 = c_id c2 -> k1 = k2.
 Proof. exact PendingProofs.outstanding_distinct. Qed.
 
+(* a caller comes back with the reply carrying its own id, or the timeout, or a send error, or (one-way) nothing *)
+Theorem C08_outcome : forall ls s k c o, Pending.run Pending.init ls = Some s -> nth_error (calls s) k = Some c -> c_pc c = CRet o ->
+  o = OTimeout \/ o = OErr \/ o = OOneWay \/ exists p, o = OReply p /\ p_id p = c_id c /\ p_id p <> 0 /\ p_oneway p = false.
+Proof. exact PendingProofs.outcome_cases. Qed.
+
+(* ---- the process: one id generator, any number of threads, any number of adapters (connections) each with its own
+   table; a call is registered under the id its own genRequestID call returned (Conc/C08Sys.v).  All label sequences. ---- *)
+
+(* every adapter is a run of the pending-table machine: the theorems above hold of every connection of the process *)
+Theorem C08_sys_adapter_is_run : forall c0 nt na ls s, srun maxi (sinit c0 nt na) ls = Some s ->
+  forall a ad, nth_error (ads s) a = Some ad -> exists pls, Pending.run Pending.init pls = Some ad.
+Proof. exact (C08SysProofs.sys_adapter_is_run maxi). Qed.
+
+(* no call is ever registered under id 0 *)
+Theorem C08_sys_ids_nonzero : forall c0 nt na ls s, srun maxi (sinit c0 nt na) ls = Some s ->
+  forall a k c p, call_at s a k c p -> c_id c <> 0.
+Proof. exact (C08SysProofs.sys_ids_nonzero maxi). Qed.
+
+(* two different calls of the process (any adapters, outstanding or not) with the same id: their ids were allocated at
+   least 2^31-2 allocations apart *)
+Theorem C08_sys_shared_id_far : forall c0, in_i32 c0 -> forall nt na ls s, srun maxi (sinit c0 nt na) ls = Some s ->
+  forall a1 k1 c1 p1 a2 k2 c2 p2, call_at s a1 k1 c1 p1 -> call_at s a2 k2 c2 p2 -> (a1 <> a2 \/ k1 <> k2) ->
+  c_id c1 = c_id c2 -> 2147483648 - 2 <= Z.abs (Z.of_nat p1 - Z.of_nat p2).
+Proof. exact (C08SysProofs.sys_shared_id_far maxi eq_refl). Qed.
+
+(* no two concurrently outstanding calls of the process share an id — in every state in which no outstanding call has been
+   overtaken by 2^31-2 or more later allocations ([all_young]; without that proviso the statement is false of the code:
+   the counter is 32 bits wide and C08_sys_shared_id_far is tight) *)
+Theorem C08_sys_outstanding_distinct : forall c0, in_i32 c0 -> forall nt na ls s, srun maxi (sinit c0 nt na) ls = Some s ->
+  forall a1 k1 c1 p1 a2 k2 c2 p2, all_young s -> call_at s a1 k1 c1 p1 -> call_at s a2 k2 c2 p2 ->
+  active c1 = true -> active c2 = true -> c_id c1 = c_id c2 -> a1 = a2 /\ k1 = k2.
+Proof. exact (C08SysProofs.sys_outstanding_distinct maxi eq_refl). Qed.
+
+(* the reply a call holds carries the call's own id, and no other outstanding call of the process, on this or any other
+   connection, has that id: never a response addressed to another call *)
+Theorem C08_sys_no_foreign_reply : forall c0, in_i32 c0 -> forall nt na ls s, srun maxi (sinit c0 nt na) ls = Some s ->
+  forall a k c p pk, all_young s -> call_at s a k c p -> c_pc c = CGot pk ->
+  p_id pk = c_id c /\ p_id pk <> 0 /\
+  forall a' k' c' p', call_at s a' k' c' p' -> active c' = true -> (a' <> a \/ k' <> k) -> c_id c' <> p_id pk.
+Proof. exact (C08SysProofs.sys_no_foreign_reply maxi eq_refl). Qed.
+
+(* [all_young] holds in particular while the process has performed fewer than 2^31-1 allocations in all *)
+Theorem C08_sys_young_if_few : forall s, Z.of_nat (allocs s) < 2147483648 - 1 -> all_young s.
+Proof. exact C08SysProofs.young_if_few. Qed.
+
 Print Assumptions C08_id_nonzero.
 Print Assumptions C08_id_distance.
 Print Assumptions C08_id_window_distinct.
@@ -85,3 +130,10 @@ Print Assumptions C08_cleanup.
 Print Assumptions C08_cleanup_quiescent.
 Print Assumptions C08_own_entry.
 Print Assumptions C08_outstanding_distinct.
+Print Assumptions C08_outcome.
+Print Assumptions C08_sys_adapter_is_run.
+Print Assumptions C08_sys_ids_nonzero.
+Print Assumptions C08_sys_shared_id_far.
+Print Assumptions C08_sys_outstanding_distinct.
+Print Assumptions C08_sys_no_foreign_reply.
+Print Assumptions C08_sys_young_if_few.
